@@ -226,3 +226,8 @@ def run(ctx):
     rule_g2(ctx)
     rule_p(ctx)
     rule_s(ctx)
+    # "equal the pipeline values for every access history ... never a misplaced example": the disk cache inherits the
+    # lookup of the memory cache (rule S), so the lookup rules of C10 (canonical key K, one key for load / upstream /
+    # store M, hit and iteration through the lookup H) are obligations of this property as well
+    from . import c10
+    c10.rule_kmh(ctx)
